@@ -80,7 +80,12 @@ def col_py(c):
         kw["primary_key"] = True
     if "nullable" in c and not c.get("pk"):
         kw["nullable"] = bool(c["nullable"])
-    return sa.Column(c["name"], type_py(c["type"]), **kw)
+    if c.get("index"):
+        kw["index"] = True  # create_table / add_column emit a separate CREATE INDEX
+    if c.get("unique"):
+        kw["unique"] = True
+    args = [sa.ForeignKey(c["fk"])] if c.get("fk") else []
+    return sa.Column(c["name"], type_py(c["type"]), *args, **kw)
 
 
 def col_src(c):
@@ -92,7 +97,12 @@ def col_src(c):
         kw += ", primary_key=True"
     if "nullable" in c and not c.get("pk"):
         kw += ", nullable=%r" % bool(c["nullable"])
-    return "sa.Column(%r, %s%s)" % (c["name"], type_src(c["type"]), kw)
+    if c.get("index"):
+        kw += ", index=True"
+    if c.get("unique"):
+        kw += ", unique=True"
+    fk = ", sa.ForeignKey(%r)" % c["fk"] if c.get("fk") else ""
+    return "sa.Column(%r, %s%s%s)" % (c["name"], type_src(c["type"]), fk, kw)
 
 
 def run_ops(op, ops):
@@ -100,23 +110,36 @@ def run_ops(op, ops):
     for o in ops:
         k = o["op"]
         if k == "create_table":
-            op.create_table(o["name"], *[col_py(c) for c in o["cols"]])
+            extra = [sa.CheckConstraint(x["text"], name=x.get("name")) for x in o.get("checks", [])]
+            op.create_table(o["name"], *([col_py(c) for c in o["cols"]] + extra))
         elif k == "drop_table":
             op.drop_table(o["name"])
+        elif k == "rename_table":
+            op.rename_table(o["name"], o["new"])
         elif k == "add_column":
             op.add_column(o["table"], col_py(o["col"]))
         elif k == "drop_column":
             op.drop_column(o["table"], o["col"])
         elif k == "create_index":
-            op.create_index(o["name"], o["table"], list(o["cols"]), unique=bool(o.get("unique")))
+            cols = [sa.text(c["expr"]) if isinstance(c, dict) else c for c in o["cols"]]
+            kw = {"sqlite_where": sa.text(o["where"])} if o.get("where") else {}
+            op.create_index(o["name"], o["table"], cols, unique=bool(o.get("unique")), **kw)
         elif k == "drop_index":
             op.drop_index(o["name"], table_name=o["table"])
         elif k == "bulk_insert":
             t = sa.table(o["table"], *[sa.column(c["name"], type_py(c["type"])) for c in o["cols"]])
             rows = [{n: val_py(v) for n, v in r.items()} for r in o["rows"]]
+            if o.get("malformed") == "tuple":
+                rows = tuple(rows)  # not a list: TypeError in both modes
+            elif o.get("malformed") == "rowlist":
+                rows = [list(r.values()) for r in rows]  # rows that are not dicts: TypeError in both modes
             op.bulk_insert(t, rows, multiinsert=bool(o.get("multiinsert", True)))
         elif k == "execute":
-            op.execute(sa.text(o["text"]) if o.get("as_text") else o["text"])
+            stmt = sa.text(o["text"]) if o.get("as_text") else o["text"]
+            if o.get("via") == "context":
+                op.get_context().execute(stmt, execution_options=o.get("execution_options"))  # MigrationContext.execute
+            else:
+                op.execute(stmt, execution_options=o.get("execution_options"))
         elif k == "autocommit":
             # the documented way to leave the migration's transaction for a few statements
             with op.get_context().autocommit_block():
@@ -140,23 +163,34 @@ def render_py(ops):
     for o in ops:
         k = o["op"]
         if k == "create_table":
-            out.append("op.create_table(%r, %s)" % (o["name"], ", ".join(col_src(c) for c in o["cols"])))
+            extra = ["sa.CheckConstraint(%r, name=%r)" % (x["text"], x.get("name")) for x in o.get("checks", [])]
+            out.append("op.create_table(%r, %s)" % (o["name"], ", ".join([col_src(c) for c in o["cols"]] + extra)))
         elif k == "drop_table":
             out.append("op.drop_table(%r)" % o["name"])
+        elif k == "rename_table":
+            out.append("op.rename_table(%r, %r)" % (o["name"], o["new"]))
         elif k == "add_column":
             out.append("op.add_column(%r, %s)" % (o["table"], col_src(o["col"])))
         elif k == "drop_column":
             out.append("op.drop_column(%r, %r)" % (o["table"], o["col"]))
         elif k == "create_index":
-            out.append("op.create_index(%r, %r, %r, unique=%r)" % (o["name"], o["table"], list(o["cols"]), bool(o.get("unique"))))
+            cols = "[%s]" % ", ".join("sa.text(%r)" % c["expr"] if isinstance(c, dict) else repr(c) for c in o["cols"])
+            kw = ", sqlite_where=sa.text(%r)" % o["where"] if o.get("where") else ""
+            out.append("op.create_index(%r, %r, %s, unique=%r%s)" % (o["name"], o["table"], cols, bool(o.get("unique")), kw))
         elif k == "drop_index":
             out.append("op.drop_index(%r, table_name=%r)" % (o["name"], o["table"]))
         elif k == "bulk_insert":
             t = "sa.table(%r, %s)" % (o["table"], ", ".join("sa.column(%r, %s)" % (c["name"], type_src(c["type"])) for c in o["cols"]))
             rows = "[%s]" % ", ".join("{%s}" % ", ".join("%r: %r" % (n, val_py(v)) for n, v in r.items()) for r in o["rows"])
+            if o.get("malformed") == "tuple":
+                rows = "tuple(%s)" % rows
+            elif o.get("malformed") == "rowlist":
+                rows = "[list(r.values()) for r in %s]" % rows
             out.append("op.bulk_insert(%s, %s, multiinsert=%r)" % (t, rows, bool(o.get("multiinsert", True))))
         elif k == "execute":
-            out.append(("op.execute(sa.text(%r))" if o.get("as_text") else "op.execute(%r)") % o["text"])
+            stmt = ("sa.text(%r)" if o.get("as_text") else "%r") % o["text"]
+            fn = "op.get_context().execute" if o.get("via") == "context" else "op.execute"
+            out.append("%s(%s, execution_options=%r)" % (fn, stmt, o.get("execution_options")))
         elif k == "autocommit":
             out.append("with op.get_context().autocommit_block():")
             out.extend("    " + l for l in render_py(o["ops"]))
@@ -283,7 +317,8 @@ def _normws(s):
     return re.sub(r"\s+", " ", s or "").strip()
 
 
-def dump_db(path):
+def dump_db(path, vt="alembic_version"):
+    """vt: name of the version table (env.py option version_table)"""
     con = sqlite3.connect(path)
     try:
         master = con.execute("SELECT type, name, tbl_name, sql FROM sqlite_master ORDER BY type, name").fetchall()
@@ -292,7 +327,7 @@ def dump_db(path):
         version = []
         has_vt = False
         for typ, name, tbl, sql in master:
-            if name == "alembic_version" or tbl == "alembic_version":
+            if name == vt or tbl == vt:
                 has_vt = True
                 continue
             schema.append([typ, name, tbl, _normws(sql)])
@@ -302,7 +337,7 @@ def dump_db(path):
                 rows = con.execute("SELECT * FROM %s ORDER BY rowid" % q).fetchall()
                 tables[name] = {"cols": [[c[0], _normws(c[1]), c[2], c[3]] for c in info], "rows": [[_cell(v) for v in r] for r in rows]}
         if has_vt:
-            version = sorted(r[0] for r in con.execute("SELECT version_num FROM alembic_version"))
+            version = sorted(r[0] for r in con.execute('SELECT version_num FROM "%s"' % vt.replace('"', '""')))
         return {"schema": schema, "tables": tables, "version": version, "has_version_table": has_vt}
     finally:
         con.close()
@@ -384,18 +419,66 @@ class VerSpy:
         self.H._insert_version, self.H._delete_version, self.H._update_version, self.H.update_to_step = self.orig
 
 
+DEFAULT_ENV = {
+    "literal_binds": True,          # the shipped env.py sets it for --sql
+    "per_migration": False,         # transaction_per_migration
+    "transactional_ddl": None,      # override of the dialect's setting (SQLite: False)
+    "version_table": "alembic_version",
+    "version_table_pk": True,
+    "version_table_schema": None,   # "main" is the only schema a plain SQLite file has
+    "output_encoding": None,        # --sql output through EncodedIO
+    "external_txn": False,          # env.py opens connection.begin() itself before configure()
+    "callbacks": False,             # on_version_apply
+    "base_prefix": False,           # range written base:<target> instead of <target>
+    # real env.py only (EnvironmentContext.configure arguments / command arguments):
+    "tag": None,                    # command.upgrade(..., tag=...)
+    "buffer_in_env": False,         # env.py passes output_buffer= to context.configure() itself
+    "start_in_env": False,          # upgrade --sql <target> with starting_rev= given by env.py instead of a start:end range
+}
+
+
+def full_env(env):
+    e = dict(DEFAULT_ENV)
+    e.update(env or {})
+    return e
+
+
+def env_opts(env):
+    """context.configure() keyword arguments common to the online and the offline run"""
+    o = {"transaction_per_migration": bool(env["per_migration"])}
+    if env["transactional_ddl"] is not None:
+        o["transactional_ddl"] = bool(env["transactional_ddl"])
+    if env["version_table"] != "alembic_version":
+        o["version_table"] = env["version_table"]
+    if not env["version_table_pk"]:
+        o["version_table_pk"] = False
+    if env["version_table_schema"]:
+        o["version_table_schema"] = env["version_table_schema"]
+    return o
+
+
+def make_callback(log):
+    def cb(ctx, step, heads, run_args):
+        log.append([bool(step.is_upgrade), bool(step.is_migration), list(step.source_revision_ids), list(step.destination_revision_ids),
+                    step.up_revision.revision if step.up_revision is not None else None,
+                    sorted(r.revision for r in step.down_revisions), [r.revision for r in step.source_revisions],
+                    [r.revision for r in step.destination_revisions], sorted(heads)])
+
+    return cb
+
+
 class FakeRunner:
     """fake revisions in a real ScriptDirectory; real MigrationContext; env.py shape"""
 
     kind = "fake"
 
-    def __init__(self, hist, bodies, literal_binds=True, per_migration=False):
+    def __init__(self, hist, bodies, env=None):
         from .revfake import make_sd
 
         self.holder = {}
         self.hist = hist
-        self.literal_binds = literal_binds
-        self.per_migration = per_migration
+        self.env = full_env(env)
+        self.cb_log = []
         fb = {}
         for r in hist:
             b = bodies.get(r["id"], {"up": [], "down": []})
@@ -435,13 +518,17 @@ class FakeRunner:
 
         steps = []
         eng = sa.create_engine("sqlite:///" + dbpath, poolclass=sa.pool.NullPool)
+        opts = {"fn": self._fn(cmd, target, steps), "script": self.sd, **env_opts(self.env)}
+        if self.env["callbacks"]:
+            opts["on_version_apply"] = (make_callback(self.cb_log),)
         try:
             with eng.connect() as conn:
-                ctx = MigrationContext.configure(
-                    connection=conn,
-                    opts={"fn": self._fn(cmd, target, steps), "script": self.sd, "transaction_per_migration": self.per_migration},
-                )
-                self._run(ctx)
+                if self.env["external_txn"]:
+                    # env.py variant: the caller owns the transaction (alembic must neither begin nor commit)
+                    with conn.begin():
+                        self._run(MigrationContext.configure(connection=conn, opts=opts))
+                else:
+                    self._run(MigrationContext.configure(connection=conn, opts=opts))
         finally:
             eng.dispose()
         return steps
@@ -451,19 +538,29 @@ class FakeRunner:
         from alembic.runtime.migration import MigrationContext
 
         steps = []
-        buf = io.StringIO()
+        enc = self.env["output_encoding"]
+        buf = io.BytesIO() if enc else io.StringIO()
         opts = {
             "as_sql": True,
             "output_buffer": buf,
             "fn": self._fn(cmd, target, steps),
             "script": self.sd,
-            "literal_binds": self.literal_binds,
-            "transaction_per_migration": self.per_migration,
+            "literal_binds": bool(self.env["literal_binds"]),
+            **env_opts(self.env),
         }
+        if enc:
+            opts["output_encoding"] = enc
+        if self.env["callbacks"]:
+            opts["on_version_apply"] = (make_callback(self.cb_log),)
         if start:
             opts["starting_rev"] = tuple(start) if len(start) > 1 else start[0]
+        elif self.env["base_prefix"]:
+            opts["starting_rev"] = "base"
         ctx = MigrationContext.configure(dialect_name="sqlite", opts=opts)
         self._run(ctx)
+        if enc:
+            ctx.output_buffer.flush()
+            return buf.getvalue().decode(enc), steps
         return buf.getvalue(), steps
 
 
@@ -497,10 +594,12 @@ class RealRunner:
 
     kind = "real"
 
-    def __init__(self, hist, bodies, tmp):
+    def __init__(self, hist, bodies, tmp, env=None):
         from alembic import command
         from alembic.config import Config
 
+        self.env = full_env(env)
+        self.cb_log = []
         self.tmp = tmp
         self.ini = os.path.join(tmp, "alembic.ini")
         self.dir = os.path.join(tmp, "scripts")
@@ -514,6 +613,16 @@ class RealRunner:
         open(self.ini, "w").write(txt)
         from .revfake import tup
 
+        if self.env != DEFAULT_ENV:
+            # the shipped env.py with the extra context.configure() arguments of this env variant
+            path = os.path.join(self.dir, "env.py")
+            src = open(path).read()
+            a = "connection=connection, target_metadata=target_metadata\n"
+            b = "        literal_binds=True,\n"
+            assert src.count(a) == 1 and src.count(b) == 1, "shipped env.py changed shape"
+            src = src.replace(a, "connection=connection, target_metadata=target_metadata,\n            **config.attributes.get('c12_online', {})\n")
+            src = src.replace(b, "        literal_binds=config.attributes.get('c12_literal_binds', True),\n        **config.attributes.get('c12_offline', {}),\n")
+            open(path, "w").write(src)
         for r in hist:
             b = bodies.get(r["id"], {"up": [], "down": []})
             src = REV_TEMPLATE % {
@@ -535,33 +644,50 @@ class RealRunner:
         logging.getLogger().handlers[:] = []
         logging.getLogger("alembic").setLevel(logging.WARN)
 
-    def _cfg(self, dbpath, buf=None):
+    def _cfg(self, dbpath, buf=None, starting_rev=None):
         from alembic.config import Config
 
-        cfg = Config(self.ini, stdout=io.StringIO(), output_buffer=buf) if buf is not None else Config(self.ini, stdout=io.StringIO())
+        in_env = buf is not None and self.env["buffer_in_env"]
+        cfg = Config(self.ini, stdout=io.StringIO(), output_buffer=buf) if buf is not None and not in_env else Config(self.ini, stdout=io.StringIO())
         cfg.set_main_option("script_location", self.dir)
         cfg.set_main_option("sqlalchemy.url", "sqlite:///" + dbpath)
+        common = env_opts(self.env)
+        if self.env["callbacks"]:
+            common["on_version_apply"] = make_callback(self.cb_log)
+        cfg.attributes["c12_online"] = dict(common)
+        off = dict(common)
+        if self.env["output_encoding"]:
+            off["output_encoding"] = self.env["output_encoding"]
+        if in_env:
+            off["output_buffer"] = buf
+        if starting_rev is not None:
+            off["starting_rev"] = starting_rev
+        cfg.attributes["c12_offline"] = off
+        cfg.attributes["c12_literal_binds"] = bool(self.env["literal_binds"])
         return cfg
 
     def online(self, dbpath, cmd, target):
         from alembic import command
 
-        getattr(command, cmd)(self._cfg(dbpath), target)
+        getattr(command, cmd)(self._cfg(dbpath), target, tag=self.env["tag"])
         return None
 
     def offline(self, cmd, start, target):
         from alembic import command
 
-        buf = io.StringIO()
-        cfg = self._cfg(os.path.join(self.tmp, "unused.db"), buf)
-        rng = "%s:%s" % (start[0], target) if start else target
-        if cmd == "downgrade" and not start:
+        enc = self.env["output_encoding"]
+        buf = io.BytesIO() if enc else io.StringIO()
+        in_env = bool(start) and cmd == "upgrade" and self.env["start_in_env"]
+        cfg = self._cfg(os.path.join(self.tmp, "unused.db"), buf, start[0] if in_env else None)
+        rng = "%s:%s" % (start[0], target) if start and not in_env else target
+        if not start and (cmd == "downgrade" or self.env["base_prefix"]):
             rng = "base:%s" % target
-        getattr(command, cmd)(cfg, rng, sql=True)
-        return buf.getvalue(), None
+        getattr(command, cmd)(cfg, rng, sql=True, tag=self.env["tag"])
+        return (buf.getvalue().decode(enc) if enc else buf.getvalue()), None
 
 
 def run_case(runner, tmp, cmd, start, target):
+    vt = runner.env["version_table"]
     """db0 := online upgrade to each `start` head; A := online cmd; B := offline script executed
     with sqlite3.  Returns dict with dumps, script, errors."""
     a = os.path.join(tmp, "a.db")
@@ -581,7 +707,8 @@ def run_case(runner, tmp, cmd, start, target):
         return res
     if os.path.exists(a):
         shutil.copyfile(a, b)
-    res["db0"] = dump_db(a) if os.path.exists(a) else None
+    res["db0"] = dump_db(a, vt) if os.path.exists(a) else None
+    del runner.cb_log[:]
     with VerSpy() as spy:
         try:
             runner.online(a, cmd, target)
@@ -589,6 +716,8 @@ def run_case(runner, tmp, cmd, start, target):
             res["online_error"] = "%s: %s" % (type(e).__name__, str(e)[:300])
     res["ver_online"] = spy.ops
     res["steps_online"] = spy.steps
+    res["cb_online"] = list(runner.cb_log)
+    del runner.cb_log[:]
     with VerSpy() as spy:
         try:
             script, steps = runner.offline(cmd, start, target)
@@ -598,6 +727,7 @@ def run_case(runner, tmp, cmd, start, target):
             res["offline_error"] = "%s: %s" % (type(e).__name__, str(e)[:300])
     res["ver_offline"] = spy.ops
     res["steps_offline"] = spy.steps
+    res["cb_offline"] = list(runner.cb_log)
     if res["offline_error"]:
         return res
     # (when the online run raised, the script is still executed: "both fail" is not a difference)
@@ -606,6 +736,6 @@ def run_case(runner, tmp, cmd, start, target):
     res["exec_error"] = err
     if res["online_error"]:
         return res
-    res["A"] = dump_db(a)
-    res["B"] = dump_db(b)
+    res["A"] = dump_db(a, vt)
+    res["B"] = dump_db(b, vt)
     return res
